@@ -80,4 +80,4 @@ def native_replay(ob):
             r = run_native('history', {'queries': qs}, timeout=120)
             if r.get('reproduced'):
                 return r
-    return run_native('c03')
+    return run_native('c03', timeout=600, hang_is_failure=True)
